@@ -356,6 +356,49 @@ def vector_worker(cfg):
     return out
 
 
+def pair_worker(cfg):
+    """several grid='inf' constraints in one stage: the rows of the stage with constraints A and B are the rows with A alone
+    together with the rows with B alone (multiset, evaluated at one decision vector) — every constraint keeps its own certificate"""
+    from ..common import setup_rockit_path
+    rockit = setup_rockit_path()
+    import io, contextlib
+    from collections import Counter
+    import casadi as ca
+    out = {}
+    try:
+        with contextlib.redirect_stdout(io.StringIO()), contextlib.redirect_stderr(io.StringIO()):
+            def rows(which):
+                ocp = rockit.Ocp(t0=0.5, T=2)
+                p = ocp.state(); v = ocp.state(); u = ocp.control()
+                ocp.set_der(p, v); ocp.set_der(v, u - 0.3 * v)
+                ocp.add_objective(ocp.integral(u * u) + ocp.at_tf(p) ** 2)
+                cons = {"der_p": lambda: ocp.inf_der(p) <= 1, "der_v": lambda: ocp.inf_der(v) <= 1,
+                        "p": lambda: p <= 1, "v": lambda: v <= 1,
+                        "der_p_inert": lambda: ocp.inf_der(p) <= ocp.inf_inert(ca.MX(1.5)), "der_v_inert": lambda: ocp.inf_der(v) <= ocp.inf_inert(ca.MX(1.5))}
+                for w in which:
+                    ocp.subject_to(cons[w](), grid="inf")
+                grid = rockit.GeometricGrid(2) if cfg["grid"] == "geometric" else rockit.UniformGrid()
+                M_ = {"MS": rockit.MultipleShooting, "SS": rockit.SingleShooting}.get(cfg["method"])
+                ocp.method(M_(N=2, M=2, intg="rk", grid=grid) if M_ else rockit.DirectCollocation(N=2, M=2, degree=4, grid=grid))
+                ocp.solver("ipopt", {"ipopt.print_level": 0, "print_time": False})
+                ocp.sample(p, grid="control")
+                opti = ocp._method.opti
+                f = ca.Function("g", [opti.x], [opti.g, opti.lbg, opti.ubg])
+                xs = ca.DM([0.3 + 0.37 * ((7 * i) % 11) / 11.0 for i in range(opti.nx)])
+                g, lb, ub = [np.array(a).reshape(-1) for a in f(xs)]
+                return Counter((round(float(a), 9), round(float(b), 9) if np.isfinite(b) else "-inf", round(float(c), 9) if np.isfinite(c) else "inf")
+                               for a, b, c in zip(g, lb, ub))
+            a, b = cfg["pair"]
+            r0, ra, rb, rab = rows([]), rows([a]), rows([b]), rows([a, b])
+            expect = ra + (rb - r0)
+            out["ok"] = (rab == expect)
+            out["missing"] = [list(map(str, k)) for k in (expect - rab)][:4]
+            out["extra"] = [list(map(str, k)) for k in (rab - expect)][:4]
+    except Exception as e_:
+        out["error"] = "%s: %s" % (type(e_).__name__, str(e_)[:200])
+    return out
+
+
 def run(tier="quick", seed=0, jobs=16):
     rng = random.Random(seed * 1000003 + 1515)
     n = 100 if tier == "quick" else 1000
@@ -452,7 +495,18 @@ def run(tier="quick", seed=0, jobs=16):
             dis.append({"property": "C15", "case": dict(cfg, _vector=True), "points": [], "finding_key": None,
                         "what": [{"what": "a grid='inf' constraint with vector-valued states was accepted (the scalar spline algebra "
                                           "constrains the wrong entries)", "nlp_rows": r.get("rows")}]})
-    return {"evaluations": len(items) + len(rej) + len(vcfg), "distinct_nontrivial": len(nontriv),
+    pcfg = [{"pair": pr_, "method": m, "grid": g} for pr_ in (("der_p", "der_v"), ("p", "v"), ("der_p_inert", "der_v_inert"), ("der_p", "v"))
+            for m in ("MS", "SS", "DC") for g in ("uniform", "geometric")]
+    with mp.get_context("fork").Pool(min(jobs, len(pcfg))) as pool:
+        rp = pool.map(pair_worker, pcfg, chunksize=1)
+    for cfg, r in zip(pcfg, rp):
+        dist["pair/%s+%s" % cfg["pair"]] = dist.get("pair/%s+%s" % cfg["pair"], 0) + 1
+        if "error" in r or not r.get("ok"):
+            dis.append({"property": "C15", "case": dict(cfg, _pair=True), "points": [], "finding_key": None,
+                        "what": [{"what": "two grid='inf' constraints in one stage: the rows are not those of each constraint alone "
+                                          "(a constraint lost its own certificate or got another one's)",
+                                  "rows_missing": r.get("missing"), "rows_extra": r.get("extra"), "error": r.get("error")}]})
+    return {"evaluations": len(items) + len(rej) + len(vcfg) + len(pcfg), "distinct_nontrivial": len(nontriv),
             "rule": "random ODEs with 1-2 scalar states x a grid='inf' constraint (affine, quadratic, product of states, cubic, random polynomial trees, both sides "
                     "state dependent, inf_der of a state alone or mixed with states; upper or lower bound) with a "
                     "parametric bound x {MS, SS with rk, DC degree 4} x N, M x uniform, geometric and free grids x fixed / free T: rows against the "
@@ -466,7 +520,7 @@ def run(tier="quick", seed=0, jobs=16):
 def replay(path):
     d = json.load(open(path))
     if d.get("case", {}).get("_vector"):
-        r = vector_worker(d["case"])
+        r = pair_worker(d["case"]) if d["case"].get("_pair") else vector_worker(d["case"])
         print(json.dumps(r, indent=1))
         return 1 if r.get("accepted") else 0
     r = worker((d["case"], d["points"]))
